@@ -1,9 +1,10 @@
+import PlaybackModel.Source
 /-
 Model of `playback/tape_cassette.py`:
   `TapeCassette.match_against_recorded_metadata`  (l.121-136)
   `TapeCassette._match_metadata_value`            (l.138-158)
   `TapeCassette._operator_filter`                 (l.160-181)
-Import-free and executable.  Python exceptions are explicit (`Except Err`), so "never raises" is a theorem
+Imports only the decision atoms read from the source (`PlaybackModel.Source`); executable.  Python exceptions are explicit (`Except Err`), so "never raises" is a theorem
 and not an artefact of totality.  `matchValueUnfixed` transcribes the code before the `fix:` commit (F8) and is
 kept only for the counterexample theorem.
 -/
@@ -86,14 +87,13 @@ def pyCmpList (strict : Bool) : List MVal → List MVal → Except Err Bool
   | x :: xs, y :: ys => if pyEq x y then pyCmpList strict xs ys else pyCmp strict x y
 end
 
-inductive Op where
-  | eq | lt | le | gt | ge
-  deriving Repr, DecidableEq
+abbrev Op := PlaybackModel.Atoms.Cmp
 
-/-- the five documented operators; anything else (another string, a non-string) leaves `result = False` -/
+/-- the operator table as it stands in the source (`PlaybackModel.Source.operatorTable`, regenerated from
+`_operator_filter` on every run): a chain of `if operator == lit: result = recorded <op> value`, so the last matching
+entry decides; anything else (another string, a non-string) leaves `result = False` -/
 def parseOp : MVal → Option Op
-  | .str s => if s = "=" then some .eq else if s = "<" then some .lt else if s = "<=" then some .le
-              else if s = ">" then some .gt else if s = ">=" then some .ge else Option.none
+  | .str s => PlaybackModel.Atoms.lastMatch PlaybackModel.Source.operatorTable s
   | _ => Option.none
 
 def opCmp : Option Op → MVal → MVal → Except Err Bool
